@@ -16,8 +16,9 @@ from .model import AnalysisError
 
 
 class Scenario:
-    def __init__(self, name, vtypes, edges, fixed=(), fix_first_pose=False, err_len=2):
+    def __init__(self, name, vtypes, edges, fixed=(), fix_first_pose=False, err_len=2, alias=None):
         self.name, self.vtypes, self.edges, self.fixed, self.ffp, self.err_len = name, vtypes, edges, set(fixed), fix_first_pose, err_len
+        self.alias = alias      # (i, j): vertices i and j hold the *same* pose object
 
 
 BASE_V = ["PoseR2", "PoseSE2", "PoseR2"]
@@ -100,6 +101,8 @@ def run_prelude(it, g, ffp):
 def _build(it, scn):
     dims = [CDIM[t] for t in scn.vtypes]
     poses = [sym_pose(t, "x%d" % k) for k, t in enumerate(scn.vtypes)]
+    if scn.alias:
+        poses[scn.alias[1]] = poses[scn.alias[0]]
     verts = [it.construct("Vertex", [Poly.const(100 + 7 * k), poses[k]], dict(fixed=(k in scn.fixed))) for k in range(len(dims))]
     edges, spec = [], []
     m = scn.err_len
@@ -117,7 +120,7 @@ def _build(it, scn):
     return g, verts, dims, spec
 
 
-def _assemble_and_compare(it, g, verts, dims, spec, scn, label=""):
+def _assemble_and_compare(it, g, verts, dims, spec, scn, label="", chi2_only=False):
     pkg = it.pkg
     run_prelude(it, g, scn.ffp)
     fixed = set(scn.fixed) | ({0} if scn.ffp else set())
@@ -154,7 +157,12 @@ def _assemble_and_compare(it, g, verts, dims, spec, scn, label=""):
             eH[offs[v] + a][offs[v] + a] = Poly.const(1)
     # ---- compare
     if not isinstance(chi2, Poly) or chi2 != echi:
-        raise ObFail("%saccumulated chi^2 is not the sum of the edges' e^T W e" % label)
+        raise ObFail("%sthe chi^2 stored by _calc_chi2_gradient_hessian is not the sum of all edges' e^T W e (the graph's chi^2)" % label)
+    if chi2_only:
+        direct = it.call_method(g, "calc_chi2", [])
+        if not isinstance(direct, Poly) or direct != echi:
+            raise ObFail("%sGraph.calc_chi2() is not the sum of all edges' e^T W e" % label)
+        return dict(scenario=scn.name, fixed=sorted(fixed), chi2_terms=len(echi.t))
     if not isinstance(b, Arr) or b.shape != (n,):
         raise ObFail("%sgradient has shape %s, expected (%d,)" % (label, getattr(b, "shape", None), n))
     if not isinstance(H, Arr) or H.shape != (n, n):
@@ -178,10 +186,10 @@ def _assemble_and_compare(it, g, verts, dims, spec, scn, label=""):
     return dict(scenario=scn.name, vertices=len(dims), edges=len(scn.edges), fixed=sorted(fixed), n=n)
 
 
-def assembly_obligation(scn):
+def assembly_obligation(scn, chi2_only=False):
     def fn(it):
         g, verts, dims, spec = _build(it, scn)
-        return _assemble_and_compare(it, g, verts, dims, spec, scn)
+        return _assemble_and_compare(it, g, verts, dims, spec, scn, chi2_only=chi2_only)
     return lambda pkg: run_obligation(pkg, fn)
 
 
